@@ -252,8 +252,8 @@ func describe(rt reflect.Type) (*Ty, error) {
 			if err != nil {
 				return nil, err
 			}
-			if tag == "nil" && f.Type.Kind() != reflect.Ptr {
-				tag = ""
+			if tag == "nil" && ft.K != "P" {
+				tag = "" // makeDecoder consults the nil tag only in its reflect.Ptr case (not for *big.Int)
 			}
 			ty.Fs = append(ty.Fs, Field{tag, ft})
 		}
